@@ -214,8 +214,17 @@ SerB == [ Base EXCEPT !.sel = <<"n","f">>, !.pos = <<"p">>, !.npd = 1, !.dflt = 
 SerC == [ Base EXCEPT !.sel = <<"n","m","f">>, !.kind = "cls", !.pos = <<"p">>, !.npd = 1, !.dflt = {<<"p", D("p")>>}, !.api = "register" ]
 SerD == [ Base EXCEPT !.sel = <<"x","Gee">>, !.pos = <<"p","q">>, !.npd = 2, !.vk = TRUE, !.dflt = {<<"p", D("p")>>, <<"q", D("q")>>} ]
 SerE == [ Base EXCEPT !.sel = <<"aa","gee">>, !.pos = <<"p">>, !.npd = 1, !.dflt = {<<"p", D("p")>>} ]
-SerConfs == {SerA, SerB, SerC, SerD, SerE, GinMacro}
-SerRegs == { {SerA, SerB, SerC, SerD, SerE, GinMacro}, {SerA, SerD, GinMacro}, {SerB, SerC, SerE, GinMacro} }
+\* two classes of one name in different modules, each with a method of one name; and a class whose method is unique
+SerT1 == [ Base EXCEPT !.sel = <<"x","T">>, !.kind = "cls", !.pos = <<"p">>, !.npd = 1, !.dflt = {<<"p", D("p")>>}, !.api = "register" ]
+SerT2 == [ Base EXCEPT !.sel = <<"aa","T">>, !.kind = "cls", !.pos = <<"p">>, !.npd = 1, !.dflt = {<<"p", D("p")>>}, !.api = "external" ]
+SerM1 == [ Base EXCEPT !.sel = <<"x","T","s">>, !.kind = "meth", !.pos = <<"p">>, !.npd = 1, !.dflt = {<<"p", D("p")>>}, !.api = "register" ]
+SerM2 == [ Base EXCEPT !.sel = <<"aa","T","s">>, !.kind = "meth", !.pos = <<"p","q">>, !.npd = 2, !.dflt = {<<"p", D("p")>>, <<"q", D("q")>>}, !.api = "register" ]
+SerM3 == [ Base EXCEPT !.sel = <<"x","T","u">>, !.kind = "meth", !.pos = <<"q">>, !.npd = 1, !.dflt = {<<"q", D("q")>>}, !.api = "register", !.allow = {"q"} ]
+SerConfs == {SerA, SerB, SerC, SerD, SerE, GinMacro, SerT1, SerT2, SerM1, SerM2, SerM3}
+SerRegs0 == { {SerA, SerB, SerC, SerD, SerE, GinMacro}, {SerA, SerD, GinMacro}, {SerB, SerC, SerE, GinMacro} }
+SerRegsM == { {SerA, SerD, GinMacro, SerT1, SerT2, SerM1, SerM2, SerM3}, {SerD, SerE, GinMacro, SerT1, SerM1, SerM3} }
+SerRegs == SerRegs0 \cup SerRegsM
+SerValsM == { L1, N1, R(<<"x","Gee">>, <<>>, "call"), <<"list", <<L1, N1>>>> }
 SerVals == { L1, L2, <<"lit","3">>, N1, <<"nonlit","n2">>, R(<<"x","Gee">>, <<>>, "call"), R(<<"x","Gee">>, <<"a","b">>, "bare"),
              Pct(<<"W">>), <<"list", <<L1, <<"dict", << <<L2, <<"tuple", <<R(<<"x","Gee">>, <<>>, "call")>>>>>> >>>>>>>>,
              <<"list", <<L1, N1>>>>, <<"tuple", <<>>>>, <<"dict", <<>>>> }
@@ -232,14 +241,16 @@ NamesSer == <<"p", "q", "value", "z">>
 SpA == [ Base EXCEPT !.sel = <<"m","f">>, !.pos = <<"p">>, !.npd = 1, !.dflt = {<<"p", D("p")>>} ]
 SpB == [ Base EXCEPT !.sel = <<"n","f">>, !.pos = <<"p">>, !.npd = 1, !.dflt = {<<"p", D("p")>>}, !.api = "external" ]
 SpC == [ Base EXCEPT !.sel = <<"n","m","f">>, !.kind = "cls", !.pos = <<"p">>, !.npd = 1, !.dflt = {<<"p", D("p")>>}, !.api = "register" ]
-SpConfs == {SpA, SpB, SpC}
-SpRegs == {{SpA}, {SpA, SpB}}
+SpK == [ Base EXCEPT !.sel = <<"m","K">>, !.kind = "cls", !.pos = <<"p">>, !.npd = 1, !.dflt = {<<"p", D("p")>>}, !.api = "register" ]
+SpM == [ Base EXCEPT !.sel = <<"m","K","s">>, !.kind = "meth", !.pos = <<"p">>, !.npd = 1, !.dflt = {<<"p", D("p")>>}, !.api = "register" ]
+SpConfs == {SpA, SpB, SpC, SpK, SpM}
+SpRegs == {{SpA}, {SpA, SpB}, {SpA, SpK, SpM}}
 SpFresh == {SpB, SpC}
 SpHooks == {
   [id |-> "h1", rets |-> {HookKey(<<>>, <<"f">>, "p", L1)}, raises |-> FALSE],
   [id |-> "h2", rets |-> {HookKey(<<>>, <<"m","f">>, "p", L2)}, raises |-> FALSE],
   [id |-> "h3", rets |-> {HookKey(<<"a">>, <<"n","f">>, "p", L2)}, raises |-> FALSE] }
-Spellings == { <<"f">>, <<"m","f">>, <<"n","f">>, <<"n","m","f">>, <<"x","f">> }
+Spellings == { <<"f">>, <<"m","f">>, <<"n","f">>, <<"n","m","f">>, <<"x","f">>, <<"s">>, <<"K","s">>, <<"m","K","s">>, <<"m","s">> }
 
 \* C07's replay clause speaks about a fixed configuration followed by calls
 BindsThenCalls == (okeys # {}) => (out.op # "Bind")
